@@ -498,7 +498,7 @@ func ruleOffsetCapture(c *core.Ctx, rule string) {
 			}
 		}
 		if kw == nil {
-			o.Fail("'stream' keyword write not found")
+			o.Unrec("'stream' keyword write not found")
 			return
 		}
 		o.Require(g.Dominates(kw, def), "startPos is sampled before the 'stream' keyword is written")
@@ -543,7 +543,7 @@ func ruleOffsetCapture(c *core.Ctx, rule string) {
 				}
 			}
 		}
-		o.Require(len(defs) == 2, "expected two computations of the length (started / buffered), found %d", len(defs))
+		o.Shape(len(defs) == 2, "expected two computations of the length (started / buffered), found %d", len(defs))
 		// endstream write
 		var end *core.V
 		for _, v := range g.Vs {
@@ -559,7 +559,7 @@ func ruleOffsetCapture(c *core.Ctx, rule string) {
 			}
 		}
 		if end == nil {
-			o.Fail("'endstream' write not found")
+			o.Unrec("'endstream' write not found")
 			return
 		}
 		for _, d := range defs {
@@ -855,8 +855,8 @@ func ruleXRefStreamRows(c *core.Ctx, rule string) {
 			}
 			return true
 		})
-		o.Require(okW, "/W literal [1 w2 w3] not found")
-		o.Require(okCols, "Columns: 1+w2+w3 not found")
+		o.Shape(okW, "/W literal [1 w2 w3] not found")
+		o.Shape(okCols, "Columns: 1+w2+w3 not found")
 	})
 	c.Check(rule, "pdf.encodeInt64", "encodeInt64 writes exactly w bytes, most significant first", func(o *core.Ob) {
 		f := c.Prog.Func("pdf", "encodeInt64")
@@ -1067,7 +1067,7 @@ func ruleObjStmHeader(c *core.Ctx, rule string) {
 		if len(ws) == 2 {
 			o.Require(strings.Contains(ws[0].Key, "head") && strings.Contains(ws[1].Key, "body") && g.Dominates(ws[0].V, ws[1].V), "the stream must contain the header first, then the members")
 		} else {
-			o.Fail("expected the header and the buffered members to be written to the stream (2 writes), found %d", len(ws))
+			o.Unrec("expected the header and the buffered members to be written to the stream (2 writes), found %d", len(ws))
 		}
 	})
 	c.Check(rule, "pdf.(*Writer).WriteCompressed/xref", "every member is registered as compressed in the allocated stream with its index, after the members were validated", func(o *core.Ob) {
@@ -1506,7 +1506,7 @@ func ruleObjStmSlots(c *core.Ctx, rule string) {
 			o.FailAt(fn.Site(ix, ""), "%s: %s is not indexed by a slot position: the members are written in another order than the one registered in the cross-reference entries (which store the slot index)", c.Prog.Pos(ix.Pos()), c.Prog.Src(ix))
 			return true
 		})
-		o.Require(n >= 3, "accesses to refs/objects not found")
+		o.Shape(n >= 3, "accesses to refs/objects not found")
 	})
 }
 
